@@ -134,9 +134,9 @@ structure PState where
   fs : FS := []
   readMacros : Bool := true
   /-- ghost (no effect on behaviour): number of enclosing `parser_work` frames; the root
-      document is parsed at `nest = 1`, everything else (module definitions, `--defs`,
-      `\LTinput` files) at `nest ≥ 2` -/
-  nest : Nat := 1
+      document is parsed at `nest = 1` (`parse` sets 0 before it), everything else (module definitions,
+      `--defs`, `\LTinput` files) at `nest ≥ 2` -/
+  nest : Nat := 2
   /-- ghost: a text flow was extracted while parsing something other than the root document
       and has not been discarded since -/
   foreign : Bool := false
